@@ -10,10 +10,11 @@ TRACKING_ITEMS = [["utm_source", "tw"], ["utm_campaign", "x y"], ["UTM_MEDIUM", 
                   ["source", "twitter"], ["m", "1"], ["s", "09"], ["mtm_kwd", "k"], ["at_medium", "c"], ["xtor", "AD-1"], ["echobox", None],
                   ["feature", "share"], ["__twitter_impression", "true"], ["spref", "tw"], ["platform", "hootsuite"], ["sid", "1"], ["mkt_tok", "e"]]
 AMP_ITEMS = [["amp", None], ["amp", "1"], ["amp_js_v", "0.1"], ["outputtype", "amp"], ["output", "amp"], ["mode", "amp"]]
-LOOKALIKE_ITEMS = [["utm", "1"], ["utmx", "1"], ["ref", "other"], ["s", "123"], ["s", "ab"], ["m", "2"], ["source", "rss"], ["xfbclid", "1"],
+LOOKALIKE_ITEMS = [["source", "twit"], ["source", ""], ["source", None], ["source", "t"], ["ref", "f"], ["ref", ""], ["ref", None], ["m", ""], ["m", None], ["s", ""], ["s", None],
+                   ["utm", "1"], ["utmx", "1"], ["ref", "other"], ["s", "123"], ["s", "ab"], ["m", "2"], ["source", "rss"], ["xfbclid", "1"],
                    ["sessionids", "1"], ["at", "1"], ["amplify", "1"], ["output", "xml"], ["gaa", "1"], ["features", "1"]]
 PER_DOMAIN_ITEMS = [["t", "10s"], ["si", "abc"], ["_rdr", None], ["_rdc", "1"], ["ab_channel", "X"]]   # irrelevant on youtube / facebook only
-KEPT_ITEMS = [["id", "42"], ["page", "2"], ["q", "a b"], ["b", "2"], ["a", "1"], ["a", "0"], ["a", None], ["B", "x"], ["é", "ü"], ["x", ""], ["lang", "fr"],
+KEPT_ITEMS = [["Tag", ""], ["tag", None], ["TAG", "1"], ["id", "42"], ["page", "2"], ["q", "a b"], ["b", "2"], ["a", "1"], ["a", "0"], ["a", None], ["B", "x"], ["é", "ü"], ["x", ""], ["lang", "fr"],
               ["z", "%41"], ["k", "a%20b"], ["y", "a=b"], ["c", "a+b"]]
 FRAGMENTS = [None, None, None, "", "section", "top", "!/", "/", "!", "/route/1", "!/tweet", "!hashbang", "a/b", "%2Froute", "x y"]
 
